@@ -47,6 +47,14 @@ REVIEWED = {
 }
 
 
+# reviewed sinks that are order-insensitive only for the callers that were read: (callee, parameter) -> callers allowed to pass a
+# hash-ordered value.  whatshap phase lost its frozenset in 41cc603 because the family order decided the row order of
+# --changed-genotype-list (and the first-use numbering of sample ids the solver sees)
+REVIEWED_CALLERS = {
+    ("whatshap.cli.phase.setup_families", "samples"): {"whatshap.cli.genotype.run_genotype"},
+}
+
+
 def _reaching_set_def(ctx, fi, inst, ot):
     """For a plain Name source: does a definition that makes it a set actually reach the use?"""
     src = inst["src"]
@@ -127,6 +135,14 @@ def r1(ctx):
                 fi.loc(inst["site"]),
                 "%s over %s (%s of %s) -- %s" % (inst["how"], srctxt, kind, elem, why) if ok else "hash-seed dependent order escapes: %s over `%s` (a %s of %s elements) reaches an order-sensitive use without sorted(); the result can differ between runs with different PYTHONHASHSEED" % (inst["how"], srctxt, kind, elem),
             )
+    for (callee, param), allowed in sorted(REVIEWED_CALLERS.items()):
+        for _, (cfi, call, arg, kd) in sorted(ot.param_sources.get((callee, param), {}).items(), key=lambda kv: (kv[1][0].qual, getattr(kv[1][1], "lineno", 0))):
+            if kd[1] == "int":
+                continue
+            if not _reaching_set_def(ctx, cfi, {"src": arg, "site": call}, ot):
+                continue
+            ok = cfi.qual in allowed
+            ctx.ob(cfi.qual, "hash-ordered-argument:%s.%s" % (callee.split(".")[-1], param), ok, cfi.loc(call), "%s passes a hash-ordered %s as `%s` of %s: a reviewed caller (results are stored and read by sample name)" % (cfi.qual.split(".")[-1], kd[0], param, callee.split(".")[-1]) if ok else "%s passes `%s`, a hash-ordered %s, as `%s` of %s, which iterates it to build the family lists: the order of the phased individuals (sample numbering, row order of per-sample outputs) changes with PYTHONHASHSEED" % (cfi.qual.split(".")[-1], u(arg), kd[0], param, callee.split(".")[-1]))
     ctx.note("order-taint scanned %d functions; %d non-integer set iterations classified" % (len(ot.funcs), n))
     # positive control: the analysis must see at least the known set-valued sources
     known = [q for q in ("whatshap.cli.haplotag.compute_shared_samples", "whatshap.cli.haplotag.compute_variant_file_samples_to_use") if ot.returns.get(q, (None,))[0] == "set"]
